@@ -12,6 +12,7 @@ import (
 	"net/http"
 	"os"
 	"path/filepath"
+	"strings"
 	"sync"
 	"testing"
 	"time"
@@ -116,6 +117,20 @@ func runC09Conc(t testing.TB, c C09ConcCase) (key, what string) {
 	case <-time.After(Wait):
 		close(resume)
 		return "HARNESS", "the slow download did not start"
+	}
+	// the stalled download is in flight (its first 4 KiB have arrived): the
+	// operator has been told about it by now, not only once it is over
+	s.Barrier()
+	told := false
+	for _, l := range s.Lines() {
+		if strings.Contains(l.CL.Line, "File requested: "+path(0)) {
+			told = true
+		}
+	}
+	if !told {
+		close(resume)
+		wg.Wait()
+		return "file-request-not-reported-while-in-flight", fmt.Sprintf("the first 4 KiB of %s (%s mode, %d KiB) have reached the client, but no 'File requested' notice has reached the operator", path(0), c.Mode, c.SizeKB)
 	}
 	judge := func(who, p string, d dl) (string, string) {
 		w := want(p)
